@@ -148,7 +148,7 @@ func C17(e *Env) {
 		}
 		return rs
 	}
-	nPairs := e.Pick(60, 1000)
+	nPairs := e.Pick(60, 5000)
 	for _, img := range imgs {
 		reqs := []wire.Req{wire.P(wire.OpOpen, "/"+img.rel)}
 		reqs = append(reqs, pairsFor(img, nPairs)...)
@@ -180,6 +180,8 @@ func C17(e *Env) {
 			wit := map[string]any{"image": s.img, "session": s.desc, "requests": reqStrings(s.reqs), "failed_at": res.FailAt, "transcript": tailStr(res.Log, 12)}
 			if res.Fail.Inconclusive {
 				run.Inconclusive(res.Fail.Error())
+			} else if !inScope("C17", res.Fail, s.reqs, res.FailAt) {
+				run.Count("other_property_failures_not_judged", 1)
 			} else {
 				feat := fmt.Sprintf("S=%d,sig=%s", s.img.S, s.img.sig)
 				if res.Fail.Rule == "wrong-bytes" || res.Fail.Rule == "short-response" || res.Fail.Rule == "no-response" || res.Fail.Rule == "stray-bytes" {
